@@ -369,6 +369,41 @@ fn run_case(case: &Value, args: &Args, rng: &mut Rng) -> Result<(Value, u64), Fa
         }
     }
 
+    // ---- replica C: the graph is created by a real `new_graph` action that publishes the init
+    // command AND the first command(s) under it, so the init segment holds several commands
+    if args.opt_bool("twin") && u.order.len() >= 2 && u.parents[&u.order[1]] == vec![u.order[0]] && u.kinds[&u.order[1]] != "merge" {
+        let mut c = Replica::new(ids::init_id());
+        let mut sink_c = ASink::new();
+        let mut pubs = vec![audit::Publish { id: ids::init_id(), prio: Priority::Init, op: b'n', label: u.chains[&u.order[0]][0].label() }];
+        for cmd in &u.chains[&u.order[1]] {
+            pubs.push(audit::Publish { id: *cmd.id.as_array(), prio: cmd.prio.clone(), op: cmd.bytes[0], label: cmd.label() });
+        }
+        let act = audit::AAction { cmds: pubs, fail_after: None };
+        c.new_graph(&mut sink_c, &act).map_err(|e| fail("C07:new-graph-failed", format!("new_graph publishing init + {} commands failed: {}", u.chains[&u.order[1]].len(), err_class(&e))))?;
+        let rest: Vec<ACmd> = u.order[2..].iter().flat_map(|n| u.chains[n].iter().cloned()).collect();
+        let mut tc = c.txn();
+        let res_c = match vrt::catch_any(|| {
+            if !rest.is_empty() {
+                c.deliver(&mut tc, &mut sink_c, &rest)?;
+            }
+            c.commit(tc, &mut sink_c)
+        }) {
+            Ok(r) => r,
+            Err(p) => return Err(fail("C01:twin-panic", format!("history starting with a multi-command init segment panicked: {p}"))),
+        };
+        res_c.map_err(|e| fail("C01:twin-commit-error", format!("history starting with a multi-command init segment failed: {}", err_class(&e))))?;
+        let vc = c.view().map_err(|e| fail("tool:view", e))?;
+        if vc != after {
+            return Err(fail("C01:diverge", format!("a replica whose graph was created by an action publishing several commands disagrees: A {} C {}", view_json(&u, &after), view_json(&u, &vc))));
+        }
+        if args.opt_bool("index") {
+            match vrt::catch_any(|| check_index(&mut c, &u, rng)) {
+                Ok(r) => r?,
+                Err(p) => return Err(fail("C11:panic", format!("lookup/ancestry query panicked: {p}"))),
+            }
+        }
+    }
+
     // ---- C11: lookup and ancestry on the committed graph
     if args.opt_bool("index") {
         match vrt::catch_any(|| check_index(&mut a, &u, rng)) {
